@@ -34,9 +34,10 @@
 (*                                                                                  *)
 (* Binding B (LastPointVoteTrace.tla): histories recorded from a real                *)
 (* isaacstates.Ballotbox driven with really signed ballots (harness c06 "votes":     *)
-(* every start position x every ballot x every embedded voteproof; every record      *)
-(* voted to a decision from every start position; seeded consensus-like flows with   *)
-(* late, duplicate and suffrage-confirm ballots) are replayed through these actions; *)
+(* every start position x every ballot x every embedded voteproof, also with the     *)
+(* suffrage learnt late so that Count makes the move; every record voted to a         *)
+(* decision from every start position; seeded consensus-like flows with late,         *)
+(* duplicate and suffrage-confirm ballots) are replayed through these actions;        *)
 (* the statement (LastPoint!StepOK) is evaluated on the REAL position before and     *)
 (* after every call, the model's answer is compared as evidence.                     *)
 EXTENDS Integers, FiniteSets, Sequences, TLC
@@ -49,6 +50,7 @@ CONSTANTS MaxH, MaxR,   \* ballots for heights 1..MaxH, rounds 0..MaxR
           StartAll,     \* TRUE: the box starts at every position (as after SetLastPoint on a fresh box)
           StartSuf,     \* initial values of "the suffrage is known" ({TRUE}: Learn never fires)
           EvpAny,       \* TRUE: a ballot embeds any voteproof; FALSE: none or one the protocol carries
+          SymFirst,     \* TRUE: the first vote on a record is n0's for fact A (nodes and facts are interchangeable while Ex0 = {})
           WithSetLast,  \* SetLast is part of Next (redundant with StartAll for short behaviours)
           Guard         \* "before": as the code; "filter": the filtered voteproof is taken unchecked
 
@@ -190,6 +192,7 @@ Init == /\ box \in {[last |-> l, votes |-> {}, fin |-> {}, suf |-> s, nn |-> NN0
         /\ act = Act("Init", NoBallot, FALSE)
 
 Vote(b) == /\ ops < MaxOps
+           /\ (SymFirst /\ RecVotes(box.votes, b.k) = {}) => (b.n = "n0" /\ b.f = "A")
            /\ \E o \in VoteOut(box, b) : box' = o.st /\ act' = Act("Vote", b, o.voted)
            /\ ops' = ops + 1
 Count == /\ ops < MaxOps
